@@ -124,11 +124,17 @@ var c11CuratedFamilies = []c11Family{
 		Roots: []c11Root{{Text: "@bad1"}, {Text: "[@bad1]"}, {Text: "{\n  \"x\": @obj\n}"}},
 	},
 	{ // rule sets with several faults of one kind (a format type next to two or three rules it does
-		// not admit; two unknown rules): which one Check names belongs to the result
+		// not admit; two unknown rules; a type whose two or rule-sets are faulty for different
+		// reasons): which one Check names belongs to the result
+		Types: []lib.TypeDef{
+			{Name: "@s", Text: "\"abc\" // {minLength: 1}"},
+			{Name: "@two", Text: "1 // {or: [{type: \"@a\", nullable: true}, {type: \"@s\", nullable: true}]}"},
+		},
 		Roots: []c11Root{
 			{Text: "\"a@b.co\" // {type: \"email\", minLength: 1, maxLength: 20, regex: \"a\"}"},
 			{Text: "{\n  \"u\": \"2021-01-02\" // {regex: \"2\", type: \"date\", maxLength: 12}\n}"},
 			{Text: "5 // {foo: 1, bar: 2}"},
+			{Text: "{\n  \"v\": @two\n}"},
 			{Text: "[\n  \"550e8400-e29b-41d4-a716-446655440000\" // {maxLength: 40, minLength: 2, type: \"uuid\"}\n]"},
 		},
 	},
@@ -548,7 +554,7 @@ var c11ExhPools = []c11ExhPool{
 		Families: []c11Family{{Types: c11CuratedFamilies[13].Types, Roots: c11CuratedFamilies[13].Roots[:2]}},
 		Docs:     []c11Doc{{Text: `{"cat": {"id": 7}, "dog": {"tag": 7}}`}}}},
 	{"rule sets with several faults of one kind + a document with exponent numerals", c11Pool{
-		Families: []c11Family{{Roots: []c11Root{c11CuratedFamilies[8].Roots[0], c11CuratedFamilies[8].Roots[2], c11CuratedFamilies[4].Roots[0]}}},
+		Families: []c11Family{{Types: c11CuratedFamilies[8].Types, Roots: []c11Root{c11CuratedFamilies[8].Roots[0], c11CuratedFamilies[8].Roots[3], c11CuratedFamilies[4].Roots[0]}}},
 		Docs:     []c11Doc{{Text: `{"id": 12E+2, "tags": ["a", "b"], "opt": 15e-1}`}}}},
 	{"two allOf parents, key shortcut roots + a trailing-characters document", c11Pool{
 		Families: []c11Family{{Types: c11CuratedFamilies[5].Types, Roots: c11CuratedFamilies[5].Roots[:2]}},
